@@ -8,13 +8,17 @@ Per schema (model = vf/model.py Schema, text = schema.text()):
      sample value through every mutator of an explicit non-derived attribute and reads it back through the accessor(s).
 Workload: the shared seeded corpus (vf/gen_schema.py, same schemas as C01 looks at) + C02's own naming / inheritance /
 type-zoo schemas (vf/c02_extras.py) + deterministic probes of open findings (vf/c02_probes.py).
+     Every schema's names are also asked for the way an application / the Part 21 reader does (vf/c02_naming.py:
+     FindSchema / FindType / FindEntity / ObjCreate with the declared name, one Part 21 instance per entity keyword).
+Workload additions: identifier-shape matrix (vf/c02_naming.py) and the optional / unique / derived / inverse flag matrix
+of attribute descriptors (vf/c02_flags.py; UNIQUE rules also in the re-declaration matrices of vf/c02_redecl.py).
 """
 import hashlib
 import os
 import re
 from concurrent.futures import ThreadPoolExecutor
 from .. import build, run, gen_schema, probes, p21fam
-from .. import c02_model, c02_acc, c02_extras
+from .. import c02_model, c02_acc, c02_extras, c02_naming, c02_flags
 from .. import c02_probes   # noqa: F401  (registers the probes and their masks)
 from .. import c02_redecl   # (registers the explicit re-declaration matrix probe)
 
@@ -147,6 +151,43 @@ def run_regdump(case, env):
     return dump, crashes
 
 
+def run_lookup(case, env):
+    """regdump find / read with the DECLARED names -> (finds|None, reads|None, ids, [(phase, Result)] crashes)"""
+    import shutil
+    import tempfile
+    exe = os.path.join(case.dir, 'regdump')
+    d = tempfile.mkdtemp(prefix='c02l', dir='/dev/shm' if os.path.isdir('/dev/shm') else None)
+    crashes = []
+    try:
+        with open(os.path.join(d, 'names.txt'), 'w') as f:
+            f.write(c02_naming.find_list(case.schema))
+        text, ids = c02_naming.p21_by_keyword(case.schema)
+        hn = c02_naming.header_named(case.schema)
+        if hn and not getattr(case.probe, 'read_header_named', False):
+            ids = {}      # mask part21_header_entity_names: the read step is exercised by the fixed probes only
+        with open(os.path.join(d, 'kw.p21'), 'w') as f:
+            f.write(text)
+        with open(os.path.join(d, 'kw.p21.ids'), 'w') as f:
+            f.write(' '.join(str(i) for i in sorted(ids)) + '\n')
+        r = run.run([exe, 'find', os.path.join(d, 'names.txt')], cwd=d, env=env, timeout=120)
+        lf = c02_naming.parse_lookup(r.out)
+        finds = lf['finds']
+        if r.crashed() or r.rc != 0 or not lf['done']:
+            crashes.append(('look-up by declared name', r))
+            finds = None
+        reads = None
+        if ids:
+            r = run.run([exe, 'read', os.path.join(d, 'kw.p21')], cwd=d, env=env, timeout=120)
+            lr = c02_naming.parse_lookup(r.out)
+            reads = lr['reads']
+            if r.crashed() or r.rc != 0 or not lr['done']:
+                crashes.append(('reading one unset instance per entity keyword' + (', schema declares the name of a Part 21 header-section entity' if hn else ''), r))
+                reads = None
+        return finds, reads, ids, crashes, text
+    finally:
+        shutil.rmtree(d, ignore_errors=True)
+
+
 def run_acc(case, env):
     """-> (vals, ended, [(test n, Result)] crashes, inconclusive reason|None)"""
     exe = os.path.join(case.dir, os.path.basename(case.acc_path)[:-3])
@@ -226,6 +267,19 @@ def judge(chk, case, env):
     for key, what in c02_model.compare_instances(s, dump, chk):
         found.append((key, what, dfiles))
     chk.ev(len(dump['insts']))
+    # ---- the same names asked for the way an application / the Part 21 reader does
+    if dump['dict_ok'] and not crashes:
+        finds, reads, ids, lcrashes, p21text = run_lookup(case, env)
+        for phase, r in lcrashes:
+            if r.timed_out:
+                chk.inconc('regdump (%s) timed out on %s' % (phase, s.name))
+                continue
+            found.append(('crash|%s|%s' % (phase, r.symptom()), 'regdump %s: %s %s' % (phase, r.symptom(), run.san_frames(r.err)),
+                          dict(files, **{'stderr': r.err[-6000:], 'stdout': r.out[-3000:], 'kw.p21': p21text})))
+        for key, what in c02_naming.compare_lookup(s, dump, finds, reads, ids, chk):
+            found.append((key, what, dict(dfiles, **{'kw.p21': p21text})))
+    else:
+        chk.count('look-up by declared name not exercised (dictionary dump or an instance creation failed)')
     # ---- accessors
     pl = case.plan
     if pl is not None:
@@ -272,6 +326,13 @@ def main(chk):
     for s in c02_extras.extras(chk.seed, chk.tier):
         cases.append(Case(s, 'extra'))
     cases.append(Case(c02_extras.demask(c02_redecl.derived_matrix()), 'extra'))
+    # identifier-shape matrix (fixed shapes + seeded identifiers) and attribute-flag matrix (fixed + seeded part)
+    cases.append(Case(c02_extras.demask(c02_naming.naming_matrix(chk.seed)), 'extra'))
+    cases.append(Case(c02_extras.demask(c02_flags.flags_matrix(chk.seed)), 'extra'))
+    if not quick:
+        for i in range(8):
+            cases.append(Case(c02_extras.demask(c02_naming.naming_matrix(chk.seed, 'xnr%d__%d' % (chk.seed, i), n_random=30, fixed=False)), 'extra'))
+            cases.append(Case(c02_extras.demask(c02_flags.flags_matrix(chk.seed, 'xfr%d_%d' % (chk.seed, i), fixed=False, n_ent=5)), 'extra'))
     for p in probes.PROBES.get('C02', []):
         p.prepare()
         cases.append(Case(p.schema, 'probe', p))
@@ -308,12 +369,18 @@ def main(chk):
     if nfail * 2 > len(nonprobe):
         chk.inconc('more than half of the schemas could not be built (%d of %d)' % (nfail, len(nonprobe)))
     return chk.finish(
-        rule='schemas: %d from vf/gen_schema.corpus(seed) + naming/inheritance/type-zoo extras from vf/c02_extras.py + fixed probes; one evaluation = one compile, '
-             'one dictionary dump, one fresh instance, or one mutator/accessor round trip; distinct_nontrivial = distinct (descriptor kind, checked field, '
-             'non-default model value) tuples compared, distinct instance shapes, and distinct (accessor kind, inherited?) pairs' % n_corpus,
+        rule='schemas: %d from vf/gen_schema.corpus(seed) + naming/inheritance/type-zoo extras from vf/c02_extras.py + identifier-shape matrix (vf/c02_naming.py) + attribute-flag matrix (vf/c02_flags.py) '
+             '+ re-declaration matrices (vf/c02_redecl.py) + fixed probes; one evaluation = one compile, '
+             'one dictionary dump, one fresh instance, one look-up / creation / Part 21 read by declared name, or one mutator/accessor round trip; distinct_nontrivial = distinct (descriptor kind, checked field, '
+             'non-default model value) tuples compared (incl. (clause, unique, labelled?, joint?, optional?) of UNIQUE rules), distinct instance shapes, '
+             'distinct (kind of name, identifier shape) looked up / read by keyword, and distinct (accessor kind, inherited?) pairs' % n_corpus,
         assumptions=['the schema model vf/model.py (all_attrs = Part 21 order) and its text rendering are correct',
                      'unbounded `?` is INT_MAX in the dictionary (LITERAL_INFINITY in src/express/expr.c; SdaiHeaderSchemaInit.cc); an absent bound specification may be left unset',
                      'subtypes are compared as a set (EXPRESS gives them no order); Description() strings are not compared',
+                     'Unique() of an attribute descriptor: true iff a UNIQUE rule of the declaring / re-declaring entity names the attribute; a rule that '
+                     'names an attribute the entity re-declares only as SELF\\sup.attr is not judged; rules of subtypes leave the descriptors of supertypes alone',
+                     'look-up by declared name is judged only for names the registry iteration lists (a missing name is the set comparison\'s business); '
+                     'Part 21 reading by keyword: one instance per non-abstract entity with every parameter unset, judged only on "an instance of that entity exists"',
                      'randomized workload masks: shared generator features %s, local %s (each exercised by a deterministic probe of an open finding)'
                      % (sorted(AVOID_SCHEMA), c02_extras.LOCAL_MASKS),
                      'gcc ASan/UBSan runtimes'])
